@@ -7,7 +7,6 @@ import time
 import json
 import re
 
-from .. import adjust
 from .. import coqterm as ct
 from .. import gen_tree as gt
 from .. import ns
@@ -100,7 +99,7 @@ def uses_default_subcollection(d, name):
     return name_class(d, name)[0]
 
 
-class C10(adjust.Remember, Prop):
+class C10(Prop):
     id = "C10"
     corr_module = "Corr.C10Corr"
     preds = ("corr", "spec", "adj_names", "adj_list_b", "adj_list_c", "adj_list_d", "adj_list_all")
@@ -134,14 +133,21 @@ class C10(adjust.Remember, Prop):
                     "task arguments / per-task help"]
 
     def setup(self, tier, seed):
+        # a wide terminal for --list (print_columns gives up on narrow ones): patched at the source and,
+        # if program.py imported the name, there too -- whichever import style the code uses
         import invoke.program
-        self._saved = invoke.program.pty_size
-        invoke.program.pty_size = lambda: (10000, 24)
+        import invoke.terminals
+        wide = lambda: (10000, 24)
+        self._saved = [(invoke.terminals, "pty_size", invoke.terminals.pty_size)]
+        invoke.terminals.pty_size = wide
+        if getattr(invoke.program, "pty_size", None) is not None:
+            self._saved.append((invoke.program, "pty_size", invoke.program.pty_size))
+            invoke.program.pty_size = wide
 
     def teardown(self):
-        import invoke.program
-        if hasattr(self, "_saved"):
-            invoke.program.pty_size = self._saved
+        for mod, name, val in getattr(self, "_saved", []):
+            setattr(mod, name, val)
+        self._saved = []
 
     # ---- cases -----------------------------------------------------------
     def _cases_for(self, rng, spec):
@@ -321,8 +327,8 @@ class C10(adjust.Remember, Prop):
         rows = ct.result(obs["rows"], lambda rs: ct.lst([
             "(%s, %s, %s, %s)" % (ct.n(r[0]), ct.s(r[1]), ct.strs(r[2]),
                                   ct.opt(ct.n(r[3]) if r[3] is not None else None)) for r in rs]))
-        return self.remember(case, "(mk %s %s %s %s %s %s)" % (ns.sub(case["script"]), ct.n(VIEWS[case["view"]]),
-                                                                ct.strs(case["names"]), st, nobs, rows))
+        return "(mk %s %s %s %s %s %s)" % (ns.sub(case["script"]), ct.n(VIEWS[case["view"]]),
+                                                                ct.strs(case["names"]), st, nobs, rows)
 
     def nontrivial(self, case, obs):
         if "ok" not in obs["state"]:
@@ -337,7 +343,7 @@ class C10(adjust.Remember, Prop):
             return "names:" + case.get("group", "?")
         return "list:" + case["view"] + (":refused" if "err" in obs["rows"] else "")
 
-    def finding_of(self, case, obs):
+    def finding_of(self, case, obs, verdict=None):
         """Which mechanism is present is read off the built tree; the judgement is made in Coq: a finding
         is named only if the specification with that finding's expectation substituted accepts the case."""
         if "ok" not in obs["state"]:
@@ -345,14 +351,25 @@ class C10(adjust.Remember, Prop):
         d = obs["state"]["ok"]
         if tree_has(d, lambda c: not defaults_consistent(c)):
             return None     # no listed finding produces a default that names nothing
-        v = self.verdicts(case)
+        v = verdict or {}
         if case["view"] == "names":
+            # adj_names (Coq): every token of the case is either fine by the ordinary judgement or shows
+            # the finding's pattern (resolves, not accepted, runs nothing, no help).  Here only the tokens
+            # showing that pattern are matched against the findings' signatures, one by one.
             if not case["names"] or not v.get("adj_names"):
                 return None
-            if all(uses_default_subcollection(d, nm) for nm in case["names"]):
-                return "F-C10a"
-            if all(uses_binding_alias(d, nm) for nm in case["names"]):
-                return "F-C10b"
+            odd = [nm for nm, o in zip(case["names"], obs["nobs"])
+                   if nm and o["contains"].get("ok") is True and o["parser"].get("ok", "x") is None]
+            ids = []
+            for nm in odd:
+                if uses_default_subcollection(d, nm):
+                    ids.append("F-C10a")
+                elif uses_binding_alias(d, nm):
+                    ids.append("F-C10b")
+                else:
+                    ids.append(None)
+            if ids and all(i is not None for i in ids):
+                return ids[0]
             return None
         sig_b = tree_has(d, lambda c: bool(binding_aliases(c)))
         sig_c = case["view"] == "json" and tree_has(d, renamed)
